@@ -328,6 +328,21 @@ theorem lock_progress (sys : Sys σ Op ρ) (hx : ∀ op, sys.mode op = .excl) {s
     have ho := inv.owner u hl
     cases hpc : s.pc u <;> simp [hpc, holding] at ho <;> simp [step, hpc]
 
+theorem run_append (sys : Sys σ Op ρ) (s : State σ Op ρ) (a b : List (Act Op)) :
+    run sys s (a ++ b) = (run sys s a).bind (fun s' => run sys s' b) := by
+  induction a generalizing s with
+  | nil => simp [run]
+  | cons x xs ih =>
+    simp only [List.cons_append, run]
+    cases step sys s x with
+    | none => simp
+    | some s1 => simpa using ih s1
+
+theorem reach_run (sys : Sys σ Op ρ) {s s' : State σ Op ρ} (acts : List (Act Op)) (h : Reach sys s)
+    (hr : run sys s acts = some s') : Reach sys s' := by
+  obtain ⟨pre, hp⟩ := h
+  exact ⟨pre ++ acts, by rw [run_append, hp]; simpa using hr⟩
+
 /-! ### algebra of the ideal queue / stack under `seqRun` -/
 
 theorem queue_conservation (ops : List QOp) (q : List Int) :
